@@ -26,13 +26,17 @@ def int_to_chars(I, v):
     key = v.get_id()
     hit = cache.get(key)
     if hit is not None:
-        return list(hit)
+        return list(hit[1])
     if w.branch(v < 0):
         out = [45] + int_to_chars(I, -v)
-        cache[key] = out
+        cache[key] = (v, out)
         return list(out)
-    k = 1
-    while k < 39:
+    # deterministic search over digit counts, narrowed by the syntactic bounds of plain variables
+    lo, hi = w.bounds.get(key, (0, None))
+    kmin = max(1, len(str(max(lo, 0))))
+    kmax = len(str(hi)) if hi is not None else 39
+    k = kmin
+    while k < kmax:
         if w.branch(v < POW10[k]):
             break
         k += 1
@@ -44,7 +48,7 @@ def int_to_chars(I, v):
         w.assume(ds[0] >= 1)
     w.assume(v == z3.Sum([ds[i] * POW10[k - 1 - i] for i in range(k)]) if k > 1 else v == ds[0])
     out = [d + 48 for d in ds]
-    cache[key] = out
+    cache[key] = (v, out)      # keep the term alive: z3 re-uses ids of freed terms
     return list(out)
 
 
